@@ -3,10 +3,10 @@ from .common import *
 from . import gen, c01, c02, c04
 from oracle import c3dref
 ID = 'C17'
-HARNESSES = ['h_c01.cpp', 'h_load.cpp']
+HARNESSES = ['h_c01.cpp', 'h_load.cpp', 'h_hist.cpp']
 LEVEL = 'model_checking'
 BUDGET = {'quick': 290, 'thorough': 3400}
-BOUNDS = {'quick': 'API-built content at L-1, L, L+1 and a far value for: description 255, parameter/group name 127, dimension extent 255, string length 255, int16 extremes, 7 dimensions, 127 groups, 255 points, 255 channels; payload symbolic where it does not fix a loop bound. At or below L: the C01 equality; beyond L: write throws, or the saved file loads to the same content (same equality)',
+BOUNDS = {'quick': 'the frame-count limit through the API: one indexed store at index 32767 (32 768 frames, one beyond the limit; thorough: also 32 767 and 65 536 frames), saved and - if the save returns - reloaded, counts and POINT:FRAMES compared; API-built content at L-1, L, L+1 and a far value for: description 255, parameter/group name 127, dimension extent 255, string length 255, int16 extremes, 7 dimensions, 127 groups, 255 points, 255 channels; payload symbolic where it does not fix a loop bound. At or below L: the C01 equality; beyond L: write throws, or the saved file loads to the same content (same equality)',
           'thorough': 'plus 255 points, 255 channels, 255 parameter blocks (API) and reference-encoded files with 32767 frames, last frame 65535, 255 parameter blocks through load -> save -> load'}
 OUTSIDE = 'more than 32767 frames through the API (hours in the interpreter); pairs of limits beyond those listed; 65535 points'
 ASSUMPTIONS = ['long texts use a fixed character (their content is not the subject, their length is)']
@@ -29,7 +29,22 @@ def jobs(tier, seed):
         for nm, sh, kw in (('frames-32767', dict(P=0, C=1, sub=1, F=32767), {}), ('last-frame-65535', dict(P=1, C=0, sub=0, F=40), {'first': 65496, 'analog': 'empty'}),
                            ('blocks-255', dict(P=1, C=0, sub=0, F=1), {'analog': 'empty', 'extras': [{'name': 'BIGA', 'type': 1, 'dims': [255, 250]}, {'name': 'BIGB', 'type': 1, 'dims': [255, 255]}, {'name': 'BIGC', 'type': 1, 'dims': [10, 1]}]})):
             out.append({'entry': 'h_load', 'harness': 'h_load.cpp', 'name': nm, 'cfg': {'gens': 2, 'dump': 1, 'obsfiles': 0}, 'shape': sh, 'lay': {}, 'opts': dict(kw, symbolic_meta=False), 'file': True})
+    # the frame-count limit through the API: ONE indexed store far beyond the end gives idx+1 frames (32 768 = one beyond the limit in
+    # the quick tier: the unchanged tree refuses the save at once; at the limit the save/reload costs minutes in the interpreter -> thorough)
+    for idx in ((32767,) if tier == 'quick' else (32766, 32767, 65535)):
+        out.append({'entry': 'h_far_save', 'harness': 'h_hist.cpp', 'name': 'frames-through-api', 'first': 1, 'cfg': {'idx': idx}, 'limit': 32767})
     return out
+
+def far_obligations(sec, job, st):
+    o = dict(sec['outcome']); n = job['cfg']['idx'] + 1; within = n <= job['limit']
+    tag = '' if within else '@beyond-limit'
+    if not o['wrote']: return [Obl('frames-through-api/refused-within-capacity', within, 'saving %d frames threw although it is within the capacity of the format' % n)]
+    if not o['loaded']: return [Obl('frames-through-api/saved-file-does-not-load' + tag, True, 'saving %d frames returned normally but the file cannot be loaded' % n)]
+    O = compare(sec['mem'], sec['file'], 'frames-through-api/counts')
+    for x in O:
+        x.locus += tag
+        if x.bad is not False: x.detail = '%d frames saved and reloaded: %s' % (n, x.detail)
+    return O
 
 def obligations(sec, job, st):
     o = dict(sec['outcome']); L = job['limit']; v = job['cfg']['value']
@@ -46,6 +61,7 @@ def obligations(sec, job, st):
     return O
 
 def run_job(engine, job):
+    if job['name'] == 'frames-through-api': return std_run(engine, job, far_obligations, 'farsave.end', ID, 'api', wall=1500, maxsteps=1_000_000_000)
     if job.get('file'):
         S, c, lay, cells = c02.build_file(job, concrete_seed=5)
         files = {'in.c3d': gen.to_engine_cells(cells)}
@@ -57,6 +73,11 @@ def run_job(engine, job):
     return std_run(engine, job, obligations, 'c17.end', ID, 'api', wall=1500, maxsteps=400_000_000)
 
 def native_confirm(nat, v):
+    if v['job'].get('name') == 'frames-through-api':
+        out, sec = native_sections(nat, v['replay'], timeout=300)
+        if out['rc'] != 0: return None
+        locus = v['id'].split('/', 2)[-1]
+        return any(o.bad is True and o.locus == locus for o in far_obligations(sec, v['job'], None))
     out, sec = native_sections(nat, v['replay'], timeout=300)
     if out['rc'] != 0: return None
     try: obls = (obligations if not v['job'].get('file') else c04.obligations)(sec, v['job'], None)
